@@ -141,6 +141,17 @@ class InlinePure(Pure):
         return super().assign(target, v, env, cont, node)
 
     def block(self, stmts, env, k):
+        # return self._region[<helper returning a slice object>(...)]
+        if stmts and isinstance(stmts[0], ast.Return) and isinstance(stmts[0].value, ast.Subscript) and isinstance(stmts[0].value.slice, ast.Call):
+            st = stmts[0]
+            base = self.expr(st.value.value, env, [])
+            helper = self.resolve(st.value.slice)
+            if base.ty == "region" and helper is not None:
+                def kont(v, env2):
+                    if v.ty != "slice_val":
+                        bad(st, "the region is indexed with something that is not a slice")
+                    return self.spec.ret(self, V(None, "region_slice", v.const, False), env2, st)
+                return self.inline_stmt(helper, st.value.slice, env, st, kont)
         if stmts and isinstance(stmts[0], ast.Assign) and isinstance(stmts[0].targets[0], ast.Tuple) and isinstance(stmts[0].value, ast.Call) \
                 and isinstance(stmts[0].value.func, ast.Name) and stmts[0].value.func.id == self.callee.name:
             st, rest = stmts[0], stmts[1:]
